@@ -40,6 +40,35 @@ class PhasePolicy(vsched.Policy):
         return self.inner.choose(enabled, default, step - self.offset, labels)
 
 
+class HoldPolicy(vsched.Policy):
+    """one long preemption: thread `name` is left alone after it has been scheduled `k` times — it stays suspended at that
+    synchronisation point while all the others run, until nobody else can (then it goes on and nothing is held any more).
+    The class of schedules a bounded number of preemptions does not reach: a check-then-act window that stays open while
+    another thread runs a whole `disconnect()`."""
+
+    def __init__(self, name, k):
+        self.name = name
+        self.k = k
+        self.quanta = 0
+        self.released = False
+
+    def choose(self, enabled, default, step, labels):
+        names = [t.name for t in enabled]
+        if self.released or self.name not in names:
+            return default
+        i = names.index(self.name)
+        if self.quanta < self.k:
+            if default == i:
+                self.quanta += 1
+            return default
+        others = [j for j in range(len(enabled)) if j != i]
+        return default if default != i else others[0]
+
+
+def hold_targets(case):
+    return ['c%d' % i for i in range(len(case['callers']))] + (['closer'] if case.get('closer') is not None else [])
+
+
 def _traced_client_class(fine):
     import frappy.client as fc
     if not fine:
@@ -691,6 +720,10 @@ def catalogue():
         {'name': 'user disconnect and peer drop at once, attribute-level yield points',
          'callers': [rp, rq], 'closer': {'delay': 0}, 'fine': True,
          'peer': {'rules': [{'on': 'read m:p', 'emit': [[0, reply_line(rp, 101)]], 'drop': 0.0}]}},
+        {'name': 'user disconnect while two requests are being queued, healthy peer',
+         'callers': [rp, rq], 'closer': {'delay': 0},
+         'peer': {'rules': [{'on': 'read m:p', 'emit': [[0, reply_line(rp, 101)]]},
+                            {'on': 'read m:q', 'emit': [[0, reply_line(rq, 102)]]}]}},
         # ---- the time-out path with equal keys
         {'name': 'two requests with the same key, the filed one is never answered: both run into their time-out',
          'callers': [rp, rp],
@@ -1173,6 +1206,10 @@ def run(ctx):
             runs.append((case, effective_schedule(obs), obs))
             if len(runs) >= 3000:
                 flush()
+        for name in hold_targets(case):
+            for k in range(ctx.budget(14, 40)):
+                res.count('hold-schedules')
+                do(case, HoldPolicy(name, k))
     # ---------- generated cases: a few systematic schedules, then random ones ----------
     for _ in range(ctx.budget(160, 1500)):
         case = gen_case(rng, big)
@@ -1182,6 +1219,9 @@ def run(ctx):
                 flush()
         for _ in range(ctx.budget(6, 16)):
             do(case, vsched.RandomPolicy(rng, rng.choice([0.1, 0.3, 0.5])))
+        for _ in range(ctx.budget(3, 8)):
+            res.count('hold-schedules')
+            do(case, HoldPolicy(rng.choice(hold_targets(case)), rng.randrange(14)))
     flush()
     conn_stream(ctx, res)
     return res
